@@ -102,6 +102,20 @@ func (c *cloud) encrypt(region string, pt []byte) ([]byte, error) {
 	c.mu.Lock()
 	defer c.mu.Unlock()
 	c.calls = append(c.calls, "enc:"+region)
+	// the request's plaintext is a data key: whatever slice the plugin built the request from must be wiped by the
+	// time EncryptKey returns (kept by reference, unless it is a buffer already watched)
+	if len(pt) > 0 {
+		dup := false
+		for _, b := range c.retained {
+			if len(b) > 0 && &b[0] == &pt[0] {
+				dup = true
+			}
+		}
+		if !dup {
+			c.retained = append(c.retained, pt)
+			c.retainedOp = append(c.retainedOp, "Encrypt(request plaintext):"+region)
+		}
+	}
 	if c.encFail[region] {
 		return nil, errFakeKMS
 	}
